@@ -14,7 +14,7 @@ fn strs(ch: &mut Chunker, ls: &[String]) -> Value {
     Value::Array(ls.iter().map(|l| ch.cps(l)).collect())
 }
 fn supported(o: &Opts) -> bool {
-    FULL || (o.sep == Sep::Ascii && o.alg == Alg::FF)
+    FULL || (o.sep != Sep::Uax && o.alg == Alg::FF)
 }
 
 pub fn run_input2(ch: &mut Chunker, k: &str, v: &Value) {
